@@ -595,7 +595,9 @@ impl<'de> Visitor<'de> for IDLValueVisitor {
         use serde::de::VariantAccess;
         let (variant, visitor) = data.variant::<IDLValue>()?;
         if let IDLValue::Text(v) = variant {
-            let v: Vec<_> = v.split(',').collect();
+            // "<label>,<name|id>,<style>": the label itself may contain commas
+            let mut v: Vec<_> = v.rsplitn(3, ',').collect();
+            v.reverse();
             let (id, style) = match v.as_slice() {
                 [name, "name", style] => (Label::Named(name.to_string()), style),
                 [hash, "id", style] => (Label::Id(hash.parse::<u32>().unwrap()), style),
